@@ -9,7 +9,7 @@
 (*                 min(k, requested); the remainder is delivered by the    *)
 (*                 following calls before the next item is looked at)      *)
 (*           "eof" the call returns Ok(0)                                  *)
-(*           "eintr" the call fails with EINTR                             *)
+(*           "eintr" the call fails with EINTR; k > 1: the next k calls do *)
 (*           "err" the call fails with errno k (k # EINTR)                 *)
 (*           an exhausted script means end of file.                        *)
 (*   writer: "a"   the call accepts min(k, offered) bytes                  *)
@@ -252,7 +252,9 @@ Resp(req) ==
     ELSE LET it == script[ri] IN
          CASE it.t = "c"     -> [kind |-> "data", n |-> Min(it.k, req), ri |-> ri + 1, left |-> it.k - Min(it.k, req), term |-> FALSE]
            [] it.t = "eof"   -> [kind |-> "eof", n |-> 0, ri |-> ri + 1, left |-> 0, term |-> TRUE]
-           [] it.t = "eintr" -> [kind |-> "eintr", n |-> 0, ri |-> ri + 1, left |-> 0, term |-> FALSE]
+           \* a run of it.k (at least 1) consecutive EINTRs: the code's state does not change while it
+           \* retries, so the whole run is one step and one log entry <<req, "eintr", run length>>
+           [] it.t = "eintr" -> [kind |-> "eintr", n |-> IF it.k > 1 THEN it.k ELSE 1, ri |-> ri + 1, left |-> 0, term |-> FALSE]
            [] it.t = "err"   -> [kind |-> "err", n |-> it.k, ri |-> ri + 1, left |-> 0, term |-> TRUE]
 \* the scripted writer: response to a write of `m` > 0 bytes
 WResp(m) ==
@@ -261,7 +263,7 @@ WResp(m) ==
     ELSE LET it == script[ri] IN
          CASE it.t = "a"     -> [kind |-> "acc", n |-> Min(it.k, m), ri |-> ri + 1, term |-> FALSE]
            [] it.t = "zero"  -> [kind |-> "zero", n |-> 0, ri |-> ri + 1, term |-> FALSE]
-           [] it.t = "eintr" -> [kind |-> "eintr", n |-> 0, ri |-> ri + 1, term |-> FALSE]
+           [] it.t = "eintr" -> [kind |-> "eintr", n |-> IF it.k > 1 THEN it.k ELSE 1, ri |-> ri + 1, term |-> FALSE]
            [] it.t = "err"   -> [kind |-> "err", n |-> it.k, ri |-> ri + 1, term |-> TRUE]
 
 Log(req, r) == calls' = Append(calls, <<req, r.kind, r.n>>)
